@@ -14,7 +14,22 @@ import VC2.Model.SliceFitDriver
 import VC2.Model.SeqHeaderDriver
 import VC2.Model.SlicePadDriver
 import VC2.Model.WorkerPaths
+import VC2.Model.EncoderCompose
 open VC2 VC2.Gen
+
+/-- `pc <profile> <pcm> <header length> <picture length> …` → the validator model's verdict on the encoder's plain
+    sequence after the autofill passes, and the filled fields `code,next,prev,picture number,major version` per unit -/
+def handlePc (ws : List String) : String :=
+  open VC2.Model.EncoderCompose VC2.Model.Autofill VC2.Model.Stream in
+  match ws.mapM (·.toNat?) with
+  | some (p :: pcm :: h :: ls) =>
+    let filledSeq := autofillSeq (plainSeq p h ls)
+    let cfg : Config := { slicesX := 1, slicesY := 1, levelPattern := .star (.sym ".") }
+    let v := (validate cfg (filledSeq.map (toD pcm))).1
+    let verdict := match v with | .ok => "OK" | .reject c => c | .desync => "DESYNC" | .crash w => "CRASH:" ++ w
+    let sh (o : Option Nat) := match o with | some n => toString n | none => "-"
+    verdict ++ " | " ++ " ; ".intercalate (filledSeq.map (fun u => s!"{u.code},{sh u.next},{sh u.prev},{sh u.picNum},{sh (u.hdr.bind (·.majorVersion))}"))
+  | _ => "bad-op"
 
 /-- `wp <codec> <encoder|decoder> <generator> <relative/path>` → `own` / `foreign` (Model/WorkerPaths.lean) -/
 def handleWp (ws : List String) : String :=
@@ -64,6 +79,7 @@ def step (line : String) : String :=
   | "pg" :: rest => VC2.Model.Picture.handlePg rest
   | "ps" :: rest => VC2.Model.Picture.handlePs rest
   | "wp" :: rest => handleWp rest
+  | "pc" :: rest => handlePc rest
   | "dc" :: rest => VC2.Model.Picture.handleDc rest
   | "ff" :: rest => VC2.Model.FileFormat.handleFf rest
   | "vs" :: rest => VC2.Model.Constraint.handleVs rest
